@@ -394,6 +394,15 @@ def probe_shipped(ctx, nsgenv, CR):
 
 
 def replay(ctx, payload):
+    if payload.get("kind") == "dynamic_join_probe":
+        from props import dynprobe
+        c2 = CK.Ctx("C19", "quick", 1)
+        dynprobe.run(c2, "C19")
+        for v in c2.violations:
+            print(v["what"])
+        if c2.violations:
+            print("VIOLATION property=C19 replay=(this file)")
+        return 1 if c2.violations else 0
     nsgenv, WL, WR, CR = _imports()
     if payload.get("kind") == "shipped":
         c2 = CK.Ctx("C19", "quick", 1)
